@@ -166,10 +166,12 @@ pub fn run(seed: u64, n: usize, out: &Path, thorough: bool) -> anyhow::Result<()
                         let Item::Fail { x_hi, reason } = items[k].clone() else { unreachable!() };
                         items.remove(k);
                         let (node, peer) = if x_hi { (&mut hi, lo_id) } else { (&mut lo, hi_id) };
-                        node.connect_finished(ns, peer, reason_of(reason), TaskEnd::Failed).await;
+                        // a lost connection, or the peer answering that it does not sync this document
+                        let not_found = rng.chance(1, 3);
+                        node.connect_finished(ns, peer, reason_of(reason), if not_found { TaskEnd::AbortNotFound } else { TaskEnd::Failed }).await;
                         trans = format!("(THandleFail {})", k);
-                        jtrans = format!("handler for failed connect task #{}", k);
-                        stats.inc("t_handle_fail");
+                        jtrans = format!("handler for failed connect task #{} ({})", k, if not_found { "remote abort: not found" } else { "connection failed" });
+                        stats.inc(if not_found { "t_handle_fail_not_found" } else { "t_handle_fail" });
                     }
                 }
                 // dials made: new requests go to the front (newest first), as in the model
